@@ -37,6 +37,7 @@ Definition op3_ok (n : nat) (o : op3) : Prop :=
   | OParse2 d _ lr _ => (d < n)%nat /\ 0 < lr <= w
   | OParseN d _ _ _ => (d < n)%nat
   | OChunks d k => (d < n)%nat /\ 0 < k
+  | OGrowFail d k => (d < n)%nat /\ 0 <= k
   end.
 (** the premise on the state: a value whose square root is taken consists of word digits *)
 Definition op3_pre (o : op3) (pool : list repr) : Prop :=
@@ -142,6 +143,13 @@ Proof.
       apply safe_bind. eapply wp_release; [apply Own_swap_app'; exact HO1|]. intros m2 HO2.
       apply (wp_store_out M d (Done (with_sign r s0)) p1 (length pool)); auto; try lia.
       split; [rewrite rblks_with_sign; exact HO2 | apply ReprInv_with_sign; exact HR].
+  - (* OGrowFail *)
+    destruct HS as [HI HO]. destruct Hok as (Hd & Hk).
+    destruct (fetch w (ByVal d) pool) as [[s0 x] p1] eqn:E1.
+    destruct (fetch_spec w M (ByVal d) pool s0 x p1 Hd HI E1) as (L1 & I1 & T1 & P1 & R1).
+    apply safe_bind. eapply (wp_set_bit_fail w M w_pos M_big x n (blocks p1)); auto.
+    + eapply Own_perm; [exact P1 | exact HO].
+    + intros o m1 Ho. apply (wp_store_out M); auto; lia.
 Qed.
 
 (** the premises of the steps hold along the run of a history (the state-dependent one is about the state the step meets) *)
